@@ -11,3 +11,4 @@ pub fn node_ann_id(a: &radicle_node::service::message::Announcement) -> u64 {
     crate::kit::fnv(crate::kit::FNV0, &radicle_node::wire::serialize(&radicle_node::service::Message::Announcement(a.clone())))
 }
 pub mod fetch;
+pub mod cob;
